@@ -24,7 +24,8 @@ TrajOps == {"roundtrip", "extract", "reverse", "append"}
 TrajCases == [kind : {"traj"}, fmt : Formats, natoms : 1..MaxAtoms, nframes : 1..MaxFrames, k : 0..(MaxFrames-1),
               vals : ValClasses, permuted : BOOLEAN, triclinic : BOOLEAN, op : TrajOps]
 TemplCases == [kind : {"template"}, nkeys : 0..3, duplicate : BOOLEAN, commented : BOOLEAN,
-               set_existing : SUBSET (1..3), set_new : 0..2]
+               set_existing : SUBSET (1..3), set_new : 0..2,
+               final_newline : BOOLEAN]          \* does the template's last line end with a line terminator?
 
 (* CP2K inputs are section trees; an edit sets keywords of MOTION->MD, may add a section that does   *)
 (* not exist yet and may remove MOTION->PRINT; results are compared as trees (sibling order is      *)
